@@ -240,6 +240,20 @@ def body_end_to_end(ctx, kind):
     elif kind == 'nothing':
         ds = xarray.Dataset({'v': (('a',), numpy.zeros(3))})
         expect = None
+    elif kind == 'shoc_standard_after_custom_names':
+        # SHOC standard files keep their predefined coordinate names, whatever names another dataset was opened with
+        from emsarray.conventions.arakawa_c import ArakawaCGridKind as K
+        from emsarray.conventions.shoc import ShocStandard
+        other = builders.shoc_standard(2, 2)
+        pairs = {K.node: ('y_grid', 'x_grid'), K.back: ('y_back', 'x_back'), K.face: ('y_centre', 'x_centre'), K.left: ('y_left', 'x_left')}
+        other = other.rename({n: n + '_alt' for p in pairs.values() for n in p})
+        custom = ShocStandard(other, coordinate_names={k: (a + '_alt', b + '_alt') for k, (a, b) in pairs.items()})
+        ctx.check(len(custom.polygons) == 4, 'a SHOC dataset with other coordinate names can be opened by naming them')
+        ds = builders.shoc_standard(2, 3)
+        expect = 'ShocStandard'
+        if removed:
+            ds = ds.drop_vars('x_left')
+            expect = 'CFGrid2D'
     elif kind == 'thin_subclass':
         # an extra convention written as a small subclass of a built-in one: it only swaps the topology helper and
         # inherits everything else, detection included
@@ -270,7 +284,10 @@ def body_end_to_end(ctx, kind):
             expect = None
         reg = _registry.registry
         before = list(reg.registered_conventions)
-        reg.add_convention(NavGrid)
+        # detection has been used before the extra convention is registered (through the public function)
+        get_dataset_convention(builders.cf1d(2, 2))
+        from emsarray.conventions import register_convention
+        register_convention(NavGrid)
         try:
             cls = get_dataset_convention(ds)
             ctx.check((cls.__name__ if cls else None) == expect, f'{kind}: detected convention')
@@ -391,6 +408,7 @@ def cases(tier):
                  'ugrid_marker', 'ugrid_mesh', 'nothing'):
         yield Case(f'detect:{kind}', body_end_to_end, dict(kind=kind), max_paths=10)
     yield Case('detect:thin_subclass', body_end_to_end, dict(kind='thin_subclass'), max_paths=10)
+    yield Case('detect:shoc_standard_after_custom_names', body_end_to_end, dict(kind='shoc_standard_after_custom_names'), max_paths=10)
     for conv in ('cf1d', 'ugrid'):
         yield Case(f'history:{conv}:len{3 if q else 4}', body_history, dict(length=3 if q else 4, conv=conv), max_paths=5000, split=16)
 
